@@ -14,7 +14,7 @@ pub fn spec() -> Spec {
         case_cap_s: |t| t.pick(120, 1200),
         rule: "one case per (graph, ordered source-sink pair, entry point). Family 'digraph': all simple digraphs on <= 4 vertices and on 5 vertices with <= E edges (thorough: all), each also under a sparse non-monotone vertex labeling; family 'forward': all digraphs with edges i->j, i<j, on N vertices through the directed entry points and all undirected graphs on N vertices through the undirected entry points (this family is what exercises flow cancellation); family 'sparse7' (quick tier; subsumed by 'forward' at the thorough tier): all undirected graphs on 7 vertices with exactly 9 edges, edge cuts only (9 edges on 7 vertices is the first size at which cancelling flow along an antiparallel twin can go wrong); family 'recorded': every network handed to min_vertex_cut_undirected while simplify runs on a corpus input (hook), checked by a Menger certificate. Source and sink are endpoints of some edge, distinct, and for vertex cuts not joined by an edge. Oracle: minimum over all source-side vertex subsets (edge cuts) / all subsets of the other vertices (vertex cuts); cut separates, has minimum size, no repeats, avoids source and sink; inside + source = vertices reachable from the source after removing the cut. Non-trivial = minimum cut size >= 1.",
         assumptions: &["a vertex that touches no edge is not a vertex of the graph (the functions take an edge list)"],
-        bounds: |t| json!({"digraph_max_vertices": 4, "digraph_5_vertices_max_edges": if t.is_thorough() { 20 } else { 6 }, "forward_vertices": t.pick(6, 7), "undirected_vertices": t.pick(6, 7), "undirected_7_vertices_edge_counts_quick": [9]}),
+        bounds: |t| json!({"digraph_max_vertices": 4, "digraph_5_vertices_max_edges": if t.is_thorough() { 20 } else { 6 }, "forward_vertices": t.pick(6, 7), "undirected_vertices": t.pick(6, 7), "undirected_7_vertices_edge_counts_quick": [9], "host_family": {"hosts": "cube, grids 2x4 and 3x3, Petersen, Wagner, K44, wheel 8, pentagonal prism, two K4 joined by a path (8-10 vertices)", "deleted_edges": t.pick(2, 3), "orientations": 3, "labelings": 2}}),
     }
 }
 
@@ -305,6 +305,10 @@ fn recorded_networks(ctx: &mut Ctx) {
     }
 }
 
+fn ident_big(n: usize) -> Vec<usize> {
+    (0..n).collect()
+}
+
 fn run(ctx: &mut Ctx) {
     let tier = ctx.tier;
     recorded_networks(ctx);
@@ -348,6 +352,48 @@ fn run(ctx: &mut Ctx) {
             if ctx.take() {
                 let edges: Vec<(usize, usize)> = (0..m).filter(|&k| mask >> k & 1 == 1).map(|k| pairs[k]).collect();
                 check_graph_sel(ctx, "sparse7", n, &edges, &ident[..n], false, true, false);
+            }
+        }
+    }
+    // family host: graphs on 8-10 vertices obtained from fixed host graphs (cube, 2 x 4 and 3 x 3 grid, Petersen,
+    // Wagner, K_{4,4}, wheel, prism over a pentagon, two K_4 joined by a path) by deleting up to 2 [3] edges; both
+    // entry points, vertex and edge cuts, every source/sink pair, in three orientations for the directed entry
+    // (as listed, alternating by parity, both directions) and under a second labeling
+    {
+        let hosts: Vec<(&str, usize, Vec<(usize, usize)>)> = vec![
+            ("cube", 8, vec![(0, 1), (1, 2), (2, 3), (3, 0), (4, 5), (5, 6), (6, 7), (7, 4), (0, 4), (1, 5), (2, 6), (3, 7)]),
+            ("grid 2x4", 8, vec![(0, 1), (1, 2), (2, 3), (4, 5), (5, 6), (6, 7), (0, 4), (1, 5), (2, 6), (3, 7)]),
+            ("grid 3x3", 9, vec![(0, 1), (1, 2), (3, 4), (4, 5), (6, 7), (7, 8), (0, 3), (3, 6), (1, 4), (4, 7), (2, 5), (5, 8)]),
+            ("Petersen", 10, vec![(0, 1), (1, 2), (2, 3), (3, 4), (4, 0), (0, 5), (1, 6), (2, 7), (3, 8), (4, 9), (5, 7), (7, 9), (9, 6), (6, 8), (8, 5)]),
+            ("Wagner", 8, vec![(0, 1), (1, 2), (2, 3), (3, 4), (4, 5), (5, 6), (6, 7), (7, 0), (0, 4), (1, 5), (2, 6), (3, 7)]),
+            ("K44", 8, (0..4).flat_map(|a| (4..8).map(move |b| (a, b))).collect()),
+            ("wheel 8", 9, (0..8).flat_map(|a| [(a, (a + 1) % 8), (a, 8)]).map(|(a, b)| (a.min(b), a.max(b))).collect()),
+            ("pentagonal prism", 10, (0..5).flat_map(|a| [(a, (a + 1) % 5), (5 + a, 5 + (a + 1) % 5), (a, a + 5)]).map(|(a, b)| (a.min(b), a.max(b))).collect()),
+            ("two K4 and a path", 10, vec![(0, 1), (0, 2), (0, 3), (1, 2), (1, 3), (2, 3), (3, 4), (4, 5), (5, 6), (6, 7), (6, 8), (6, 9), (7, 8), (7, 9), (8, 9), (2, 5)]),
+        ];
+        let shuffled: Vec<usize> = vec![5, 12, 0, 9, 3, 14, 7, 1, 10, 4];
+        let max_del = tier.pick(2usize, 3usize);
+        for (name, n, host) in hosts {
+            let m = host.len();
+            for mask in 0u32..(1u32 << m) {
+                let del = mask.count_ones() as usize;
+                if del > max_del {
+                    continue;
+                }
+                if !ctx.take() {
+                    continue;
+                }
+                let edges: Vec<(usize, usize)> = (0..m).filter(|&k| mask >> k & 1 == 0).map(|k| host[k]).collect();
+                let fam = format!("host {}", name);
+                check_graph(ctx, &fam, n, &edges, &ident_big(n), true, true);
+                check_graph(ctx, &fam, n, &edges, &shuffled[..n], false, true);
+                let alt: Vec<(usize, usize)> = edges.iter().map(|&(a, b)| if (a + b) % 2 == 0 { (a, b) } else { (b, a) }).collect();
+                check_graph(ctx, &fam, n, &alt, &ident_big(n), true, false);
+                if del <= 1 {
+                    let both: Vec<(usize, usize)> = edges.iter().flat_map(|&(a, b)| [(a, b), (b, a)]).collect();
+                    check_graph(ctx, &fam, n, &both, &shuffled[..n], true, false);
+                }
+                ctx.add("host_graphs", 1);
             }
         }
     }
